@@ -806,6 +806,37 @@ def m_ord_minmax(which):
     return f
 
 
+def m_checked(op):
+    def f(it, args, callee, depth):
+        p = (callee or {}).get("path", "")
+        a, b = deref_all(it, args[0]), deref_all(it, args[1])
+        if not (isinstance(a, int) and isinstance(b, int)):
+            return NotImplemented
+        ty = p.split("<impl ")[-1].split(">")[0] if "<impl " in p else "usize"
+        bits = INT_BITS.get(ty, 64)
+        signed = ty.startswith("i")
+
+        def sg(x):
+            return x - (1 << bits) if signed and (x >> (bits - 1)) & 1 else x
+        r = {"sub": sg(a) - sg(b), "add": sg(a) + sg(b), "mul": sg(a) * sg(b)}[op]
+        lo, hi = (-(1 << (bits - 1)), (1 << (bits - 1)) - 1) if signed else (0, (1 << bits) - 1)
+        return some(r & ((1 << bits) - 1)) if lo <= r <= hi else NONE
+    return f
+
+
+def m_opt_as_mut(it, args, callee, depth):
+    """Option::as_mut / as_ref: an Option of a reference to the payload"""
+    r = args[0]
+    while isinstance(r, tuple) and r[0] == "ref" and isinstance(it.load_ref(r), tuple) and it.load_ref(r)[0] == "ref":
+        r = it.load_ref(r)
+    o = it.load_ref(r) if isinstance(r, tuple) and r[0] == "ref" else None
+    if not (isinstance(o, tuple) and o[0] == "adt" and o[2] in ("Some", "None")):
+        raise Undecided("as_mut/as_ref on undecided option")
+    if o[2] == "None":
+        return NONE
+    return some(("ref", r[1], r[2], list(r[3]) + [{"dc": "Some"}, {"f": 0, "n": "0", "of": "core::option::Option"}]))
+
+
 def m_reverse(it, args, callee, depth):
     o = deref_all(it, args[0])
     if isinstance(o, tuple) and o[0] == "adt" and o[1] == "core::cmp::Ordering":
@@ -934,6 +965,11 @@ STD_MODELS = [
     ("Option::<T>::expect", m_unwrap),
     ("Option::<T>::is_some", m_is_some),
     ("Option::<T>::is_none", m_is_none),
+    (">::checked_sub", m_checked("sub")),
+    (">::checked_add", m_checked("add")),
+    (">::checked_mul", m_checked("mul")),
+    ("Option::<T>::as_mut", m_opt_as_mut),
+    ("Option::<T>::as_ref", m_opt_as_mut),
     ("core::cmp::Ord::min", m_ord_minmax("min")),
     ("core::cmp::Ord::max", m_ord_minmax("max")),
     ("core::cmp::Ordering::reverse", m_reverse),
